@@ -362,12 +362,25 @@ Definition nums_sp (k : N) (a : list f64) : bytes := flat_map (fun x => fx k x +
 Fixpoint join_sp (l : list bytes) : bytes :=
   match l with [] => [] | [x] => x | x :: r => x ++ 32 :: join_sp r end.
 
+(** text/encoding.rs escape_pdf_name (after fix_name_escape; ISO 32000-1 7.3.5): a byte in 0x21..0x7E
+    that is neither '#' nor one of ( ) < > [ ] { } / % is kept, every other byte of the name's UTF-8
+    form is written #XX (upper-case hex).  Used for every name operand and the BDC tag. *)
+Definition iso_plain (c : N) : bool :=
+  (33 <=? c) && (c <=? 126)
+  && negb ((c =? 35) || (c =? 40) || (c =? 41) || (c =? 60) || (c =? 62) || (c =? 91) || (c =? 93)
+           || (c =? 123) || (c =? 125) || (c =? 47) || (c =? 37)).
+Fixpoint esc_name (n : bytes) : bytes :=
+  match n with
+  | [] => []
+  | c :: r => if iso_plain c then c :: esc_name r
+              else 35 :: hexdig (c / 16) :: hexdig (c mod 16) :: esc_name r
+  end.
 Definition ser_op (o : op) : bytes :=
   match o with
   | ONums w a => nums_sp 2 a ++ w ++ [10]
   | OPlain w => w ++ [10]
   | OClipStroke => [87; 32; 83; 10]
-  | ONamed w n => 47 :: n ++ 32 :: w ++ [10]
+  | ONamed w n => 47 :: esc_name n ++ 32 :: w ++ [10]
   | OColor st c => nums_sp 3 (color_nums c) ++ color_op st c ++ [10]
   | OComps st a => nums_sp 4 a ++ (if st then s2b "SC" else s2b "sc") ++ [10]
   | OSmall w v => dec v ++ 32 :: w ++ [10]
@@ -376,7 +389,7 @@ Definition ser_op (o : op) : bytes :=
        | [] => s2b "[] 0"
        | _ => 91 :: join_sp (map (fx 2) a) ++ 93 :: 32 :: fx 2 ph
        end) ++ [32; 100; 10]
-  | OFont n neg d k => 47 :: n ++ 32 :: print_fixed k (neg, d) ++ s2b " Tf" ++ [10]
+  | OFont n neg d k => 47 :: esc_name n ++ 32 :: print_fixed k (neg, d) ++ s2b " Tf" ++ [10]
   | OShowText raw => 40 :: escape raw ++ s2b ") Tj" ++ [10]
   | OShowHex h => 60 :: h ++ s2b "> Tj" ++ [10]
   | OTJ l =>
@@ -386,9 +399,9 @@ Definition ser_op (o : op) : bytes :=
                                end) l ++ s2b " ] TJ" ++ [10]
   | OComment s => 37 :: 32 :: s ++ [10]
   | ORaw s => s
-  | OBdc tag id => 47 :: tag ++ s2b " <</MCID " ++ dec id ++ s2b ">> BDC" ++ [10]
+  | OBdc tag id => 47 :: esc_name tag ++ s2b " <</MCID " ++ dec id ++ s2b ">> BDC" ++ [10]
   | OBdcActual tag id us =>
-      47 :: tag ++ s2b " <</MCID " ++ dec id ++ s2b " /ActualText <FEFF" ++ flat_map hex4 us
+      47 :: esc_name tag ++ s2b " <</MCID " ++ dec id ++ s2b " /ActualText <FEFF" ++ flat_map hex4 us
       ++ s2b ">>> BDC" ++ [10]
   | OEmc => s2b "EMC" ++ [10]
   end.
@@ -443,8 +456,11 @@ Definition expected_op (o : op) : list cop :=
 Definition expected (ops : list op) : list cop := flat_map expected_op ops.
 
 (** * Side conditions *)
+(** [regular_char]: bytes the writer before fix_name_escape could carry raw (kept for the record lemmas) *)
 Definition regular_char (c : N) : bool := negb (is_delim c) && negb (c =? 35) && (c <? 256).
-Definition regular_name (n : bytes) : bool := forallb regular_char n && utf8_valid n.
+(** a name operand is the UTF-8 form of a Rust String: ANY bytes < 256 that are valid UTF-8 (white
+    space, delimiters, '#', controls and non-ASCII included — they are escaped) *)
+Definition regular_name (n : bytes) : bool := bytes_ok n && utf8_valid n.
 Definition is_uhex (c : N) : bool := btw 48 c 57 || btw 65 c 70.
 
 Fixpoint assoc_nat (o : bytes) (t : list (bytes * nat)) : option nat :=
@@ -470,7 +486,7 @@ Definition op_wf (o : op) : bool :=
   | _ => true
   end.
 
-(** names regular (C30-name-raw otherwise), hex operands are upper-case hex digits, comments have no
+(** names are UTF-8 byte strings (nothing else: every name is escaped), hex operands are upper-case hex digits, comments have no
     line feed, `Raw` (the untyped escape hatch) excluded, MCIDs below 2^31 *)
 Definition op_regular (o : op) : bool :=
   op_wf o &&
